@@ -91,3 +91,22 @@ theorem world_add_file_stored (H : HashFn) (w : W.World) (l : W.Loaded) (a data 
     rw [hstore]; exact hget
 
 end C04
+
+namespace C04
+
+open Cmds IndexOps
+
+/-- **`rm <args>`, exact, on the whole-repository model** (a state meeting `W.J`): when it ends `ok`, every argument named a tracked
+    path or a tracked directory, the staging area afterwards holds exactly the earlier entries that no argument names (the path
+    itself or anything beneath it), in their order, and is canonical -/
+theorem world_rm_exact (H : HashFn) (w : W.World) (l : W.Loaded) (args : List Bytes) (o : Option Bytes)
+    (hl : W.load H w = some l) (hj : W.J H w) (hok : (W.rmCmd w l args).2 = .ok o) :
+    ∃ idx', (W.rmCmd w l args).1.index = (if idx' = l.idx then w.index else some idx') ∧
+      (∀ a ∈ args, (∃ e ∈ l.idx, e.path = cleanPath a) ∨ ∃ e ∈ l.idx, C06.Beneath (cleanPath a) e.path) ∧
+      C06.Canonical idx' ∧ idx'.Sublist l.idx ∧ ∀ e, e ∈ idx' ↔ e ∈ l.idx ∧ ∀ a ∈ args, Kept (cleanPath a) e := by
+  obtain ⟨idx', removed, hcmd, _, hidx⟩ := world_rm_is_cmd w l args o hok
+  have hcan : C06.Canonical (W.ws w l []).index := (W.loaded_idx_goodE H w l hl hj.1).canon
+  obtain ⟨h1, h2, h3, h4⟩ := rm_exact (W.ws w l []) args hcan idx' removed hcmd
+  exact ⟨idx', hidx, h1, h2, h3, h4⟩
+
+end C04
